@@ -272,6 +272,38 @@ theorem chunk_deterministic (p : CParams) (h h' : Hash) (pieces : List Bytes)
     chunkAll p h pieces = chunkAll p h' pieces :=
   feed_congr p h h' hh pieces []
 
+/-! ## independence from HOW the pieces are handed over (producers that reuse their buffers)
+
+`Handed.later` — what a buffer reads as once the producer was asked for the following piece — is universally quantified:
+a `readinto()` loop refilling one scratch buffer, a ring of buffers, a producer that wipes what it yielded before, … -/
+
+/-- **Handover independence.** The adapter (with the read / request order extracted from the source) produces, over a
+producer that rewrites every buffer it handed over as soon as it is asked for the next piece, exactly the chunks it produces
+for the same pieces handed over as immutable values.  Discharges `Gen.adapterCopiesBeforePull` (regenerated from
+`gclmulchunker.__call__` on every run): an adapter that requests piece N+1 before it has copied piece N breaks this proof. -/
+theorem chunk_handover_indep (p : CParams) (h : Hash) (hs : List Handed) :
+    chunkAllHanded p h hs = chunkAll p h (hs.map (·.now)) := by
+  have hflag : Gen.adapterCopiesBeforePull = true := by decide
+  unfold chunkAllHanded seenPieces
+  rw [hflag]
+  simp
+
+/-- **Lossless over reused buffers.** The concatenation of the chunks is the concatenation of what was in each buffer at the
+moment it was yielded — whatever the producer writes into those buffers afterwards. -/
+theorem chunk_lossless_handed (p : CParams) (hv : p.valid) (h : Hash) (hs : List Handed) (cs : List Bytes)
+    (hc : chunkAllHanded p h hs = some cs) : cs.flatten = (hs.map (·.now)).flatten := by
+  rw [chunk_handover_indep] at hc
+  exact chunk_lossless p hv h _ cs hc
+
+/-- The extracted order is what the two theorems above rest on (not vacuous, not over-strong): an adapter that asks for the
+following piece first consumes the rewritten buffers — here the one-scratch-buffer producer of the stream `1 … 8` in two
+4-byte pieces, whose first buffer reads `5 6 7 8` by the time it is copied. -/
+theorem pull_before_copy_witness :
+    let hs : List Handed := [⟨[1, 2, 3, 4], [5, 6, 7, 8]⟩, ⟨[5, 6, 7, 8], [5, 6, 7, 8]⟩]
+    (chunkAll ⟨4, 8⟩ (fun _ => 0) (seenPieces false hs)).map List.flatten = some [5, 6, 7, 8, 5, 6, 7, 8] ∧
+    (chunkAll ⟨4, 8⟩ (fun _ => 0) (seenPieces true hs)).map List.flatten = some [1, 2, 3, 4, 5, 6, 7, 8] := by
+  constructor <;> decide
+
 /-- non-vacuity: a concrete run satisfying the hypotheses of the theorems above -/
 example : (⟨4, 8⟩ : CParams).valid ∧
     chunkAll ⟨4, 8⟩ (fun w => (w.headD 0).toNat) [[1, 2, 3, 4, 5], [], [6], [7, 8, 9, 10, 11, 12, 13, 14, 15, 16, 17, 18, 19, 20]]
